@@ -123,11 +123,13 @@ def run(ctx):
     floc = ctx.program.loc(mmod, ctx.program.require_method("pydrex.minerals.Mineral", "from_file")) + " (from_file)"
     cases = [("olivine", "olivine_A", "matrix_dislocation"), ("enstatite", "enstatite_AB", "frictional_yielding"), ("olivine", "olivine_E", "max_viscosity")]
     # ---- whole-file round trip and postfix round trips in one archive, loaded in reverse order
-    for postfixes in ((None,), ("a",), ("p1", "p2", "p3"), ("7", "x_y"), ("1", "run_1", "2", "2_1"), ("run_1", "1"), ("a_b", "b", "a")):
+    for postfixes in ((None,), ("a",), ("p1", "p2", "p3"), ("7", "x_y"), ("1", "run_1", "2", "2_1"), ("run_1", "1"), ("a_b", "b", "a"),
+                      ("-1", "1"), ("12.5", "125", "1.25"), ("run-1/ol", "run1ol"), ("a b", "ab"), ("A", "a")):
         store = Store()
         I = make_interp(ctx, store)
         fname = "/data/out.npz"
         ms = []
+        seen_members = set()
         for i, pf in enumerate(postfixes):
             ph, fb, rg = cases[i % len(cases)]
             m = driver.make_mineral(I, ph, fb, rg, 4 + i, label=f"s{i}", nsnap=(2, 3, 7)[i % 3], symbolic_n=False)
@@ -143,8 +145,12 @@ def run(ctx):
                 zf = [e for e in ev if e[0] == "ZipFile"]
                 ctx.ob("C17.append-mode", f"postfix={pf}", len(zf) == 1 and zf[0][2] == "a", f"archive opened as {zf}", sloc)
                 names = sorted(e[2] for e in ev if e[0] == "zip.open")
-                want = sorted(f"{k}_{pf}" for k in ("meta", "fractions", "orientations"))
-                ctx.ob("C17.members", f"postfix={pf}", names == want and len([e for e in ev if e[0] == 'zip.write']) == 3, f"members written {names}, expected {want}", sloc)
+                # three members, one per key, whose names are not used by any other postfix of this archive (the naming is one-to-one)
+                keys_ok = sorted(n.split("_")[0] for n in names) == ["fractions", "meta", "orientations"]
+                clash = sorted(set(names) & seen_members)
+                seen_members.update(names)
+                ctx.ob("C17.members", f"postfix={pf}", keys_ok and not clash and len([e for e in ev if e[0] == 'zip.write']) == 3,
+                       f"members written {names}" + (f"; {clash} already hold the mineral saved under another postfix" if clash else ""), sloc)
             else:
                 ctx.ob("C17.members", "whole file", any(e[0] == "savez" and sorted(e[2]) == ["fractions", "meta", "orientations"] for e in ev),
                        f"events {ev}", sloc)
@@ -232,7 +238,7 @@ def run(ctx):
 RULES = {
     "C17.roundtrip": "save then load/from_file through a perfect store restores phase, fabric, regime, n_grains and every snapshot cell-for-cell (whole file; several postfixes in one archive, loaded in reverse order)",
     "C17.append-mode": "the postfix path opens the archive with mode 'a'",
-    "C17.members": "exactly the members meta/fractions/orientations (with _postfix) are written, one write each",
+    "C17.members": "exactly three members (meta/fractions/orientations + postfix) are written, one write each, under names no other postfix of the archive uses",
     "C17.uint8": "all enum ordinals stored in the uint8 meta array are within 0..255",
     "C17.lossless": "no dtype/rounding conversion is applied to fractions/orientations on the save/load path",
     "C17.reject": "corrupt state and non-NPZ filenames raise ValueError before any I/O event",
